@@ -123,6 +123,10 @@ func c02Oracle(d docSpec, src *jsonapi.Document, srcData []jsonapi.Resource, src
 				return "error-object-differs", fmt.Sprintf("error %d source/meta", i)
 			}
 		}
+		// top-level meta survives in error documents too
+		if oMembersOfAny(map[string]any(src.Meta)) != oMembersOfAny(map[string]any(got.Meta)) {
+			return "meta-differs", "error document"
+		}
 		return "", ""
 	}
 	// same kind of primary data
